@@ -262,7 +262,8 @@ def run_explog(ctx, p):
         ctx.bad('explog', dict(sig, kind='raised', exc=type(e).__name__), '%s raised %r for q=%s' % (which, e, q))
         return
     sc = max(1.0, nrm(q))
-    d = rel(got, q, sc if which == 'exp_log' else 1.0)
+    # log(exp(q)) = q relative to |q| itself (a pure quaternion with |v| = 3e-6 is inside the stated magnitudes)
+    d = rel(got, q, sc if which == 'exp_log' else min(1.0, nrm(q)))
     ctx.judge('explog', d <= TOL_EL, dict(sig, kind='not_inverse', sneg=bool(q[0] < 0)),
               lambda: '%s(q) = %s for %s q = %s (intermediate %s %s; residual %.3g, allowed 1e-6)' % (
                   which, got, cls, q, type(mid).__name__, core.short(mid.A, 100), d))
@@ -488,7 +489,8 @@ def run(ctx):
                 th = rng.uniform(1e-3, math.pi - 1e-3)
                 q = np.r_[math.cos(th), math.sin(th) * gen.unit_axis(rng)]
         else:
-            v = gen.unit_axis(rng) * rng.uniform(1e-3, math.pi - 1e-3)
+            # (vector part over the whole stated range, down to 1e-6: acos of a number next to 1 has lost the angle)
+            v = gen.unit_axis(rng) * (rng.uniform(1e-3, math.pi - 1e-3) if rng.random() < 0.7 else gen.logu(rng, 1e-6, 1e-3))
             q = np.r_[gen.sign(rng) * gen.logu(rng, 1e-3, 5.0), v]
             if r < 0.4:        # pure quaternion: exp is returned as a UnitQuaternion, whose log must invert it
                 q[0] = 0.0
